@@ -686,9 +686,53 @@ def streamBufferBound (n : Nat) : Nat :=
   else if (if UINT64_MAX < VLI_MAX then UINT64_MAX else VLI_MAX) - b < STREAM_HEADERS_BOUND then 0
   else b + STREAM_HEADERS_BOUND
 
-/-- Exact size of the Block `block_encode_uncompressed` writes for `n` input bytes and Check `check`:
-    12-byte header (both sizes present need more for large `n`, hence `hdr`), LZMA2 uncompressed chunks, padding, Check. -/
+/-- Size of the LZMA2 stream `block_encode_uncompressed` writes for `n` input bytes: the data, a 3-byte header per
+    chunk of at most LZMA2_CHUNK_MAX bytes, and the end marker. -/
 def uncompressedChunksSize (n : Nat) : Nat :=
   n + (n + LZMA2_CHUNK_MAX - 1) / LZMA2_CHUNK_MAX * LZMA2_HEADER_UNCOMPRESSED + 1
+
+/-- The `while (in_pos < in_size)` loop of `block_encode_uncompressed` followed by the end marker:
+    control 0x01 (dictionary reset) for the first chunk, 0x02 afterwards, big-endian `size − 1`, the bytes. -/
+def lzma2UncompressedChunksAux : Nat → Bool → List UInt8 → List UInt8
+  | 0, _, _ => [0x00]
+  | fuel + 1, first, data =>
+    if data.isEmpty then [0x00]
+    else
+      let n := if data.length < LZMA2_CHUNK_MAX then data.length else LZMA2_CHUNK_MAX
+      (if first then 0x01 else 0x02) :: UInt8.ofNat ((n - 1) / 256) :: UInt8.ofNat ((n - 1) % 256)
+        :: (data.take n ++ lzma2UncompressedChunksAux fuel false (data.drop n))
+
+def lzma2UncompressedChunks (data : List UInt8) : List UInt8 := lzma2UncompressedChunksAux data.length true data
+
+/-- `lzma_check_is_supported` in the verified build (all four implemented checks). -/
+def checkIsSupported (c : Nat) : Bool := c = 0 ∨ c = 1 ∨ c = 4 ∨ c = 10
+
+/-- The Check field for CRC32 / CRC64 / None (`none` for SHA-256, which this file does not model, and for unsupported IDs). -/
+def checkValue (check : Nat) (data : List UInt8) : Option (List UInt8) :=
+  if check = 0 then some []
+  else if check = 1 then some (le32 (crc32 data))
+  else if check = 4 then some (le64 (crc64 data))
+  else none
+
+/-- `lzma_block_uncomp_encode(block{version 0, check}, in, in_size, out, &out_pos, out_size)` with
+    `avail = out_size - out_pos`: the complete Block (header, uncompressed LZMA2 chunks, Block Padding, Check).
+    This is also what `lzma_block_buffer_encode` produces when the data does not compress.
+    Not modelled: Check ID 10 (SHA-256) — the model answers `unsupportedCheck` there, callers must not ask. -/
+def blockUncompEncode (check : Nat) (data : List UInt8) (avail : Nat) : Res (List UInt8) :=
+  if check > CHECK_ID_MAX then .error .progError
+  else match checkValue check data with
+    | none => .error .unsupportedCheck
+    | some cv =>
+      let avail := avail - avail % 4
+      if avail ≤ checkSize check then .error .bufError
+      else
+        let avail := avail - checkSize check
+        let l2 := lzma2Bound data.length
+        if l2 = 0 then .error .dataError
+        else match blockHeaderEncode check (some l2) (some data.length) [.lzma2 DICT_SIZE_MIN] with
+          | .error _ => .error .progError
+          | .ok hdr =>
+            if avail < hdr.length + l2 then .error .bufError
+            else .ok (hdr ++ lzma2UncompressedChunks data ++ List.replicate ((4 - l2 % 4) % 4) (0 : UInt8) ++ cv)
 
 end XzVerif.Container
